@@ -150,6 +150,18 @@ def diagrams(kind, alpha, tier):
     if big:
         d = {A[0]: 10**4, A[1]: 2}
         yield ("D", [("update", (d,))], [("add", (k, v)) for k, v in d.items()])
+    # legal argument variants: dict subclasses, numpy integer multiplicities / ngram sizes
+    from collections import Counter as _Counter, OrderedDict as _OD
+
+    d0 = {A[0]: 2, A[1]: 1, A[2]: 3}
+    loop = [("add", (k,)) for k, v in d0.items() for _ in range(1 if kind == "hll" else v)]
+    yield ("Dv", [("update", (_Counter(d0),))], loop)
+    yield ("Dv", [("update", (_OD(d0),))], loop)
+    for nv in (np.uint8(3), np.int32(3), np.uint32(3), np.int64(3), np.uint64(3)):
+        yield ("Mv", [("add", (A[1], nv))], [("add", (A[1],))] * (1 if kind == "hll" else 3))
+    xs = A[1] + A[0] + A[2] + b"zz"
+    for nn in (np.uint8(2), np.int64(2), np.uint64(2), np.int32(2)):
+        yield ("Nv", [("add_ngram", (xs, nn))], [("add", (w,)) for w in windows(xs, 2)])
     # M
     for k in A:
         sat = (300,) if kind == "log8" and k == A[0] else ()  # crosses the ceiling in one call
